@@ -3,6 +3,7 @@ package c07a
 import (
 	"errors"
 	"fmt"
+	"sync"
 
 	"verif/hook"
 )
@@ -72,6 +73,21 @@ func withInnerDefer(depth int) (n int) {
 	return depth
 }
 
+// functions whose own deferred call is a builtin / a compiled method and that return normally
+func deferBuiltin(depth int) int {
+	ch := make(chan int, 1)
+	defer close(ch)
+	ch <- depth
+	return <-ch + 1
+}
+
+func deferMethod(depth int) int {
+	var mu sync.Mutex
+	mu.Lock()
+	defer mu.Unlock()
+	return depth + 2
+}
+
 func nested(depth int) (n int) {
 	defer func() {
 		r := recover()
@@ -90,7 +106,24 @@ func node(depth int) (res int, err error) {
 	hook.Fault("enter")
 	nd := hook.Choose(4)
 	for i := 0; i < nd; i++ {
-		switch hook.Choose(14) {
+		switch hook.Choose(16) {
+		case 14:
+			// after a function whose deferred call was a builtin, an indirect recover is still indirect
+			defer func() {
+				v := deferBuiltin(depth)
+				helper(depth)
+				hook.Ev("d-after-builtin-defer", depth, v)
+			}()
+		case 15:
+			defer func() {
+				v := deferMethod(depth)
+				helper(depth)
+				r := recover()
+				hook.Ev("d-after-method-defer", depth, v, r)
+				if r != nil {
+					res = v
+				}
+			}()
 		case 12:
 			// arguments of a deferred call are evaluated by the defer statement: later changes
 			// of a struct or array variable must not be seen (a slice shares its elements)
